@@ -33,7 +33,7 @@ TOL = 2e-5
 BAND = 1e-3
 
 
-def add_u(s, dim_axis, default=None):
+def add_u(s, dim_axis, default=None, amp=0.8):
     """add a rigid co-motion with the second free variable u to every position value of the spec; with `default` the
     generated parameter functions declare u as an optional argument (python default)"""
     if not isinstance(s, dict):
@@ -43,7 +43,7 @@ def add_u(s, dim_axis, default=None):
             v = s[key]
             m = len(np.atleast_1d(np.asarray(v["a"] if isinstance(v, dict) else v, float)))
             coef = [0.0] * m
-            coef[min(dim_axis, m - 1)] = 0.8
+            coef[min(dim_axis, m - 1)] = amp
             term = {"var": "u", "col": 0, "kind": "lin", "coef": coef}
             if default is not None:
                 term["default"] = float(default)
@@ -53,7 +53,7 @@ def add_u(s, dim_axis, default=None):
                 s[key] = {"a": [float(x) for x in np.atleast_1d(np.asarray(v, float))], "terms": [term]}
     for k in ("a", "b", "d"):
         if k in s and isinstance(s[k], dict):
-            add_u(s[k], dim_axis, default)
+            add_u(s[k], dim_axis, default, amp)
 
 
 def has_polygon(s):
@@ -64,24 +64,106 @@ def has_polygon(s):
     return any(has_polygon(s[k]) for k in ("a", "b", "d") if k in s)
 
 
+def _has_flag(s):
+    if not isinstance(s, dict):
+        return False
+    return bool(s.get("flag")) or any(_has_flag(s[k]) for k in ("a", "b", "d") if k in s)
+
+
+def _still_fat(spec, rows, rng):
+    """the set of every parameter row keeps at least 4 % of its hull box (no nearly empty cut / intersection)"""
+    node = geo.ref(spec)
+    env = {v: np.asarray(r, float).reshape(len(r), -1) for v, r in rows.items()}
+    if not node.free() <= set(env):
+        return False
+    k = len(next(iter(env.values())))
+    for i in range(k):
+        e1 = {v: a[i:i + 1] for v, a in env.items()}
+        bb = geo._hull_box(node, e1, 1)[0]
+        P = bb[0::2] + rng.random((3000, len(bb) // 2)) * (bb[1::2] - bb[0::2])
+        if (node.phi(P, {v: np.repeat(a, 3000, 0) for v, a in e1.items()}) <= 0).mean() < 0.04:
+            return False
+    return True
+
+
+def _walk(D, node, path="D"):
+    """(live object, twin node, path) for every node of the expression tree reachable through public attributes"""
+    yield D, node, path
+    if isinstance(node, (geo.Bool, geo.Product)):
+        subs = (("domain_a", node.a), ("domain_b", node.b))
+    elif isinstance(node, (geo.Moved, geo.Boundary)):
+        subs = (("domain", node.d),)
+    else:
+        subs = ()
+    for attr, sub in subs:
+        Ds = getattr(D, attr, None)
+        if Ds is not None and hasattr(Ds, "necessary_variables"):
+            yield from _walk(Ds, sub, path + "." + attr)
+
+
+def check_declared(D, node, fixed, res, mech, stage, desc):
+    """every node of the tree declares exactly the free variables of its own sub-expression (minus the fixed ones)"""
+    for Ds, sub, path in _walk(D, node):
+        want = set(sub.free()) - set(fixed)
+        got = getattr(Ds, "necessary_variables", None)
+        res["judged"] += 1
+        res["counters"]["declared_sets_checked"] = res["counters"].get("declared_sets_checked", 0) + 1
+        if got is None or set(got) != want:
+            res["viol"].append(viol("necessary_variables", "%s: the part %s (%s) declares necessary_variables=%s, its expression needs %s (%s)" %
+                                    (desc, path, type(Ds).__name__, sorted(got) if got is not None else None, sorted(want), stage),
+                                    stage=stage, part=("root" if path == "D" else "operand"), **mech))
+            return
+
+
 def gen_cases(seed, tier):
     rng = np.random.default_rng([seed, 17])
     n = 280 if tier == "quick" else 8000
     depth = 2 if tier == "quick" else 3
     cases = []
     tries = 0
+    # the first cases are forced: Boolean roots whose operands depend on different variable sets (every seed reaches them)
+    forced = ["isect", "cut", "union"] * (4 if tier == "quick" else 40)
     while len(cases) < n and tries < 20 * n:
         tries += 1
         k = int(rng.choice([1, 2, 3, 5]))
-        dom = gen_geo.gen_domain(rng, max_depth=int(rng.integers(0, depth + 1)), k=k, dep=True,
-                                 allow=("bool", "prim", "prim", "translate", "rotate", "product"))
+        force = forced[0] if forced else None
+        if force:
+            dom = gen_geo.gen_domain(rng, max_depth=1, k=k, dep=True, allow=("bool",))
+            if dom["spec"].get("op") != force or _has_flag(dom["spec"]) or has_polygon(dom["spec"]):
+                continue
+        else:
+            dom = gen_geo.gen_domain(rng, max_depth=int(rng.integers(0, depth + 1)), k=k, dep=True,
+                                     allow=("bool", "prim", "prim", "translate", "rotate", "product"))
         spec = copy.deepcopy(dom["spec"])
         node = geo.ref(spec)
         if not node.free():
             continue
         rows = dict(dom["rows"])
         optional = {}
-        if rng.random() < 0.6 and not has_polygon(spec) and dom["info"]["kind"] != "rotate":
+        hetero = None
+        if dom["info"]["kind"] == "rotate" and isinstance(spec.get("angle"), dict) and rng.random() < 0.6:
+            # the rotation angle depends on two variables; u may be an optional argument of the angle function
+            default = float(np.float32(rng.uniform(0.2, 0.8))) if rng.random() < 0.4 else None
+            term = {"var": "u", "col": 0, "kind": "lin", "coef": [0.5]}
+            if default is not None:
+                term["default"] = default
+                optional = {"u": default}
+            else:
+                rows["u"] = [[float(np.float32(x))] for x in rng.uniform(0, 1, len(rows["t"]))]
+            spec["angle"]["terms"].append(term)
+        elif spec.get("op") in ("union", "cut", "isect") and not _has_flag(spec) and not has_polygon(spec) and (force or rng.random() < 0.4):
+            # the operands depend on different variable sets: u moves one operand only (a tenth of the size, so that the
+            # generated relation of the operands survives; checked on the twin below)
+            hetero = "a" if rng.random() < 0.5 else "b"
+            if force:
+                hetero = "b" if (len(forced) // 3) % 4 else "a"     # mostly the second operand has the larger set
+            ext = geo._hull_box(node, {v: np.asarray(r, float).reshape(len(r), -1)[:1] for v, r in rows.items()}, 1)[0]
+            amp = 0.1 * float(np.min(ext[1::2] - ext[0::2]))
+            add_u(spec[hetero], 1 if node.dim() > 1 else 0, None, amp)
+            rows["u"] = [[float(np.float32(x))] for x in rng.uniform(0, 1, len(rows["t"]))]
+            if not _still_fat(spec, rows, rng):
+                continue
+        elif rng.random() < 0.6 and not has_polygon(spec) and dom["info"]["kind"] != "rotate":
             # in a third of these cases u is an OPTIONAL argument of the parameter functions (python default)
             default = float(np.float32(rng.uniform(0.2, 0.8))) if rng.random() < 0.35 else None
             if dom["info"]["kind"] == "product":
@@ -98,6 +180,12 @@ def gen_cases(seed, tier):
             continue
         rows = {v: rows[v] for v in free}
         info = dict(dom["info"], desc=node.desc(), dep=True)
+        if hetero:
+            info["hetero"] = hetero
+        if force:
+            if not hetero:
+                continue
+            forced.pop(0)
         cases.append({"spec": spec, "rows": rows, "info": info, "k": len(rows[free[0]]), "free": free, "optional": optional,
                       "seed": int(rng.integers(0, 2 ** 31)), "uservol": bool(rng.random() < 0.2)})
     return cases
@@ -148,6 +236,8 @@ def run_case(case):
     if nv is None or set(nv) != set(free):
         res["viol"].append(viol("necessary_variables", "%s declares necessary_variables=%s, free variables of the expression are %s" %
                                 (info["desc"], sorted(nv) if nv is not None else None, free), stage="original", **mech0))
+    if not res["viol"]:
+        check_declared(D, node, (), res, mech0, "original_parts", info["desc"])
     # --- snapshot of the original (answers on a fixed query set)
     nq = 200
     ridx = rng.integers(0, k, nq)
@@ -198,6 +288,8 @@ def run_case(case):
         if nvp is None or set(nvp) != set(rest):
             res["viol"].append(viol("necessary_variables", "%s(**%s) declares necessary_variables=%s, expected %s" %
                                     (info["desc"], fixed, sorted(nvp) if nvp is not None else None, rest), stage="evaluated", **mech))
+        else:
+            check_declared(Dp, node, fixed, res, mech, "evaluated_parts", "%s(**%s)" % (info["desc"], fixed))
         # environment: fixed values for every query row, remaining variables row-wise
         allv = free + sorted(optional)
         envq_all = dict(envq, **{v: env[v][ridx] for v in optional})
@@ -300,6 +392,7 @@ def run_case(case):
                 res["viol"].append(viol("exception", "nested evaluation of %s raised %s in %s: %s" % (info["desc"], type(e).__name__, exc_site(e),
                                         str(e)[:300]), exc=type(e).__name__, site=exc_site(e), call="nested", **mech))
     # --- original unchanged
+    check_declared(D, node, (), res, mech0, "original_parts_after_evaluations", info["desc"])
     snap1 = snapshot()
     res["judged"] += 1
     for key in snap0:
